@@ -678,3 +678,17 @@ def run(ctx) -> None:
             ctx.violation(rule, construct, f.where, msg + f"; {life}", key_detail="key-omits")
     ctx.extra["memo_patterns_recognised"] = len(memos)
     ctx.extra["unresolved_callees_treated_conservatively"] = sorted(flow.unresolved)[:60]
+
+
+# ---- added: package rule R-CACHEKEY (sa/rules/memo2.py) for the modules this property is anchored in
+_inner_run = run
+
+
+def run(ctx) -> None:  # noqa: F811
+    from ..rules import memo2
+
+    ctx.rule("R-CACHEKEY", memo2.__doc__.split("\n\n", 1)[1])
+    memo2.positive_control(ctx)
+    n = memo2.check(ctx, modules={"abtem.integrals", "abtem.potentials.iam", "abtem.multislice", "abtem.antialias", "abtem.finite_difference", "abtem.magnetism.iam", "abtem.potentials.charge_density", "abtem.potentials.gpaw", "abtem.slicing"})
+    ctx.ok("R-CACHEKEY", "scan", "abtem/", f"{n} cache stores found in the anchored modules; positive control matched")
+    _inner_run(ctx)
